@@ -5,7 +5,7 @@ from .. import rules_unif as ru
 from .. import rules_grammar as rg
 from ..pygrammar import combinator_functions
 from ..core import AnalysisError, src, qualname_of
-from ..pysym import SymExec, show, subterms
+from ..pysym import SymExec, show, subterms, guards_of
 from ..rules_pyx import N, C, A
 from .. import logic
 
@@ -33,6 +33,9 @@ def closure_functions(repo):
             out.append((mod, fn))
     um = repo.module(UNI)
     cls = um.get('Unification')
+    for s in um.tree.body:
+        if isinstance(s, ast.FunctionDef):
+            out.append((um, s))
     for s in cls.body:
         if isinstance(s, ast.FunctionDef):
             out.append((um, s))
@@ -56,9 +59,11 @@ def r_purity(repo, rep, R='R14.1'):
         params = pur.fn_params(fn)
         w = '%s:%s %s' % (mod.rel, fn.lineno, qualname_of(fn))
         nested = isinstance(getattr(fn, '_parent', None), ast.FunctionDef)
-        if nested and mod.rel == UNI:
-            # helper closures of the matcher may fill dictionaries handed to them by the matcher itself
-            rep.ok(R, w, '%s: nested helper, judged through its caller (mutates %s)' % (qualname_of(fn), sorted(mutated) or 'nothing'), nontrivial=False)
+        private = fn.name.startswith('_') and not fn.name.endswith('__')
+        if (nested or private) and mod.rel == UNI:
+            # private helpers of the matcher (closures, _methods, module-level _functions) may fill dictionaries handed to
+            # them by the matcher itself: what they modify is charged to the argument at each call site in their callers
+            rep.ok(R, w, '%s: private helper, judged through its callers (mutates %s)' % (qualname_of(fn), sorted(mutated) or 'nothing'), nontrivial=False)
             continue
         n += 1
         bad = sorted(m for m in mutated if m in params and not (m == 'self' and allow_self))
@@ -255,7 +260,7 @@ def r_feature_methods(repo, rep, R='R14.6'):
                 seen.add(id(node))
                 n += 1
                 lacking = [c for c, ms in members.items() if attr not in ms]
-                guards = list(st.data.get('guards', {}).get(id(node), ())) + conds
+                guards = list(guards_of(st, e)) + conds
                 guarded = any(pol and g[0] == 'call' and g[1] in (N('isinstance'), N('hasattr')) and g[2] and g[2][0] == recv for g, pol in guards)
                 rep.check(not lacking or guarded, R, '%s:%s %s' % (mod.rel, node.lineno, qualname_of(fn)),
                           '%s:%s:feature-member:%s' % (mod.rel, qualname_of(fn), attr),
